@@ -27,7 +27,7 @@ type GenOpts struct {
 
 var (
 	PodKeys  = []string{"app", "tier", "role"}
-	PodVals  = []string{"a", "b", "c"}
+	PodVals  = []string{"a", "b", "c", ""} // "" : a marker label such as canary: ""
 	NsKeys   = []string{"team", "env"}
 	NsVals   = []string{"x", "y"}
 	PortName = []string{"http", "dns", "web"}
